@@ -29,16 +29,49 @@ class Ctx:
         return self.norm.view(fn, inline=inline, consts=consts)
 
 
+class _Watchdog:
+    """An analysis that does not terminate is a broken analysis, not a verdict: after VERIF_WATCHDOG seconds (default 600; the
+    slowest rule set needs about 15 s) the run fails closed with an AnalysisError (exit 2) instead of spinning for ever.  Met once:
+    a refactoring made a normalised view so large that a fixpoint over it ran for an hour (DESIGN.md §16)."""
+
+    def __init__(self, what: str):
+        self.what, self.armed, self.old = what, False, None
+
+    def __enter__(self):
+        import signal
+        import threading
+
+        limit = int(os.environ.get("VERIF_WATCHDOG", "600"))
+        if limit > 0 and hasattr(signal, "SIGALRM") and threading.current_thread() is threading.main_thread():
+
+            def fire(signum, frame):
+                raise AnalysisError(f"watchdog: the analysis of {self.what} did not terminate within {limit} s")
+
+            self.old = signal.signal(signal.SIGALRM, fire)
+            signal.alarm(limit)
+            self.armed = True
+        return self
+
+    def __exit__(self, *exc):
+        if self.armed:
+            import signal
+
+            signal.alarm(0)
+            signal.signal(signal.SIGALRM, self.old)
+        return False
+
+
 def run_rules(prop: str, tier: str, repo: str | None = None, overlay: dict | None = None):
-    project = Project(repo, overlay) if repo else Project(overlay=overlay)
-    ctx = Ctx(project, tier)
-    results: list[RuleResult] = []
-    for rule in rules_for(prop):
-        res = rule(ctx)
-        if not res.findings:
-            res.check_floor()
-        results.append(res)
-    return project, results
+    with _Watchdog(prop):
+        project = Project(repo, overlay) if repo else Project(overlay=overlay)
+        ctx = Ctx(project, tier)
+        results: list[RuleResult] = []
+        for rule in rules_for(prop):
+            res = rule(ctx)
+            if not res.findings:
+                res.check_floor()
+            results.append(res)
+        return project, results
 
 
 def main(argv=None) -> int:
